@@ -328,8 +328,20 @@ func finishCheck(o checkOpts, results []*funcResult, e *Engine, problems []strin
 		"known_findings":         knownLines,
 		"two_solver_agreement":   o.agree,
 	}
-	if extra := bounded[o.prop]; extra != nil {
-		cov["bounded_checks"] = extra
+	// bounded differential validation of assumed library contracts, produced by bin/validate_externals (./check)
+	if data, err := os.ReadFile(filepath.Join(o.verif, "work", "bounded_"+o.prop+".json")); err == nil {
+		var bc map[string]any
+		if json.Unmarshal(data, &bc) == nil {
+			cov["bounded_checks"] = bc
+			if f, ok := bc["failed"].(float64); ok && f > 0 {
+				v := &violation{Obligation: "external-contract-validation", Reason: "an assumed library contract was refuted by the bounded differential test: " + trunc(string(data), 1500), Property: o.prop}
+				path := filepath.Join(replayDir, "external_contract_validation.json")
+				vd, _ := json.MarshalIndent(v, "", " ")
+				_ = os.WriteFile(path, vd, 0o644)
+				fmt.Printf("VIOLATION property=%s replay=%s\n  obligation: external-contract-validation\n", o.prop, path)
+				viols = append(viols, v)
+			}
+		}
 	}
 	ev := map[string]any{
 		"property_id": o.prop,
